@@ -74,6 +74,13 @@ enum Op {
     Drop(usize),
     Flush(usize),
     OpenOutbound,
+    /// the muxer's socket stops accepting bytes (pipe capacity 256, harness stops reading) and a local substream
+    /// writes 8 KiB chunks until the muxer pushes back: from then on the framed sink is not ready, so control
+    /// frames the muxer wants to send (Reset for excess opens / overflows, Close/Reset of dropped substreams)
+    /// have to wait in its queue
+    Congest(usize),
+    /// the socket accepts bytes again; the harness reads and a flush is driven
+    Uncongest,
 }
 
 #[derive(Default, Debug, Clone)]
@@ -132,6 +139,8 @@ struct Rig {
     max_backlog: usize,
     resets_for_excess: u64,
     log: Vec<String>,
+    congested: bool,
+    congestions: u64,
 }
 
 fn payload(id: u64, seq: u32) -> Vec<u8> {
@@ -165,6 +174,8 @@ impl Rig {
             m,
             b,
             block,
+            congested: false,
+            congestions: 0,
             hostile_resets: false,
             redundant_reset_seen: false,
             dropped_blocking: false,
@@ -279,8 +290,8 @@ impl Rig {
         if let Some(h) = eof_on {
             self.on_eof(h);
         }
-        // wire output
-        let out = self.m2h.drain();
+        // wire output (while congested the harness does not read)
+        let out = if self.congested { vec![] } else { self.m2h.drain() };
         if !out.is_empty() {
             self.out_buf.extend(out);
             match ref_decode(&self.out_buf) {
@@ -489,6 +500,10 @@ impl Rig {
         self.after_poll(None, None);
     }
     fn open_outbound(&mut self) {
+        if self.congested {
+            // the rig learns an outbound substream's id from the Open frame on the wire, which it does not read now
+            return;
+        }
         let room = self.in_use() < self.m;
         let w = self.waker.clone();
         match Pin::new(&mut self.mux).poll_outbound(&mut Context::from_waker(&w)) {
@@ -585,6 +600,52 @@ impl Rig {
                 }
             }
             Op::OpenOutbound => self.open_outbound(),
+            Op::Congest(h) => self.congest(*h),
+            Op::Uncongest => self.uncongest(),
+        }
+    }
+    fn congest(&mut self, h: usize) {
+        let live: Vec<usize> = (0..self.handles.len()).filter(|h| self.handles[*h].sub.is_some()).collect();
+        if self.congested || live.is_empty() {
+            return;
+        }
+        let h = live[h % live.len()];
+        self.congested = true;
+        self.m2h.set_capacity(Some(256));
+        let w = self.waker.clone();
+        let chunk = vec![0xABu8; 8 * 1024];
+        let mut accepted = 0usize;
+        for _ in 0..64 {
+            let Some(sub) = self.handles[h].sub.as_mut() else { break };
+            match Pin::new(&mut *sub).poll_write(&mut Context::from_waker(&w), &chunk) {
+                Poll::Ready(Ok(n)) => accepted += n,
+                Poll::Ready(Err(_)) => break, // write half closed / reset: nothing to congest with
+                Poll::Pending => break,
+            }
+        }
+        self.log.push(format!("congest: {accepted} bytes accepted by the muxer before it pushed back"));
+        self.congestions += 1;
+        self.after_poll(None, None);
+    }
+    fn uncongest(&mut self) {
+        if !self.congested {
+            return;
+        }
+        self.congested = false;
+        self.m2h.set_capacity(None);
+        self.after_poll(None, None);
+        let live: Vec<usize> = (0..self.handles.len()).filter(|h| self.handles[*h].sub.is_some()).collect();
+        for _ in 0..40 {
+            // the bulk data leaves in pipe-sized pieces: keep flushing and reading until nothing moves
+            let before = self.m2h.written();
+            if let Some(h) = live.first() {
+                self.flush(*h);
+            } else {
+                self.pump_inbound();
+            }
+            if self.m2h.written() == before {
+                break;
+            }
         }
     }
     fn queue_data(&mut self, key: Key, n: usize) {
@@ -598,6 +659,7 @@ impl Rig {
 
     /// end of history: every reader drains, everything queued gets offered
     fn finish(&mut self) {
+        self.uncongest();
         for _round in 0..10_000 {
             let before = (self.frames_pulled, self.frames_delivered, self.handles.len(), self.queue.len());
             self.pump_inbound();
@@ -763,6 +825,13 @@ fn gen_ops(rng: &mut Rng, m: usize, b: usize) -> Vec<Op> {
         ops.push(op);
     }
     let _ = m;
+    // a third of the histories have one congestion episode somewhere
+    if rng.chance(1, 3) && ops.len() > 4 {
+        let i = rng.usize(ops.len() - 1);
+        ops.insert(i, Op::Congest(rng.usize(64)));
+        let j = i + 1 + rng.usize(ops.len() - i);
+        ops.insert(j.min(ops.len()), Op::Uncongest);
+    }
     ops
 }
 
@@ -774,6 +843,7 @@ struct CaseOut {
     resets_for_excess: u64,
     overflows: usize,
     handles: usize,
+    congestions: u64,
     log: Vec<String>,
 }
 
@@ -829,6 +899,7 @@ fn run_case(m: usize, b: usize, block: bool, hostile_resets: bool, ops: &[Op], c
         resets_for_excess: rig.resets_for_excess,
         overflows: rig.streams.values().filter(|s| s.overflow_cap.is_some()).count(),
         handles: rig.handles.len(),
+        congestions: rig.congestions,
         log: rig.log.clone(),
     }
 }
@@ -906,6 +977,7 @@ pub fn run(args: &Args) -> i32 {
                 check.count("frames_delivered", out.delivered);
                 check.count("excess_opens_reset", out.resets_for_excess);
                 check.count("overflow_resets", out.overflows as u64);
+                check.count("congestion_episodes_with_muxer_pushback", out.congestions);
                 check.count("substreams_handed_out", out.handles as u64);
                 check.count(if block { "histories_block" } else { "histories_resetstream" }, 1);
                 check.distinct("max_backlog_values_seen", out.max_backlog as u64);
